@@ -127,12 +127,13 @@ def raw_case(draw):
     form = draw(st.sampled_from(["list", "tuple", "numpy"]))
     routes = ["ctor", "instanciate", "rebuild1", "rebuild2"]
     regular = (not F or len(set(len(f) for f in F)) == 1) and (not C or len(set(len(c) for c in C)) == 1)
-    if regular and not attrs and all(max(e) < N for e in E):
+    if regular and not attrs and all(max(e) < N for e in E):   # (from_arrays takes no corner records; prefill is ignored there)
         routes += ["from_arrays", "from_arrays2d"]
     route = draw(st.sampled_from(routes))
     if route == "from_arrays2d":
         V = [[v[0], v[1], 0.0] for v in V]
-    return {"kind": kind, "V": V, "E": E, "F": F, "C": C, "attrs": attrs, "form": form, "route": route,
+    prefill = bool(F) and draw(st.integers(0, 3)) == 0
+    return {"kind": kind, "V": V, "E": E, "F": F, "C": C, "attrs": attrs, "form": form, "route": route, "prefill_corners": prefill,
             "complete_edges": complete_edges, "complete_faces": complete_faces, "manifold": manifold}
 
 
@@ -179,6 +180,10 @@ def build_raw(case, form=None):
     raw.edges += [conv(e) for e in case["E"]]
     raw.faces += [conv(f) for f in case["F"]]
     raw.cells += [conv(c) for c in case["C"]]
+    if case.get("prefill_corners"):
+        # what the file importers do: corner records for the declared faces are filled in by the producer of the raw data
+        for iF, f in enumerate(case["F"]):
+            raw.face_corners += [(int(v), iF) for v in f]
     for a in case["attrs"]:
         at = raw.edges.create_attribute(a["name"], PYTYPE[a["type"]], a["arity"], dense=a["dense"])
         for i, v in a["values"].items():
@@ -254,7 +259,9 @@ def check_normal_form(case, m, ctx, tag=""):
                      f"{tag}first {nd} edges {medges[:nd]} are not the surviving declared edges in declared order, low index first {nf['declared']} (declared raw: {case['E']})")
     good = ctx.check(sorted(medges[nd:]) == sorted(nf["extra"]) and len(set(medges)) == len(medges), "edges:completed",
                      f"{tag}edges after the declared ones {sorted(medges[nd:])[:12]} are not every other face side exactly once {sorted(nf['extra'])[:12]}") and good
-    ctx.check(all(all(isinstance(x, (int, np.integer)) for x in e) and isinstance(e, tuple) for e in m.edges) or True, "edges:type", "")
+    # every stored edge is a (hashable) tuple, whatever the form of the declared rows: in-repo code uses them as dict / set keys
+    bad = [repr(e) for e in m.edges if not isinstance(e, tuple)]
+    ctx.check(not bad, "edges:type", f"{tag}edges are not all stored as tuples (low index first): {bad[:4]} (declared rows given as {case['form']})")
     if good:
         # attributes: total maps over the new index range
         for a in case["attrs"]:
@@ -370,6 +377,11 @@ def battery(case, m, ctx):
                 out["file." + ext] = open(p).read()
     finally:
         shutil.rmtree(d, ignore_errors=True)
+    if nf["dim"] >= 1:
+        ok, r = ctx.call("later:edges-as-keys", lambda: sorted(set(m.edges)))
+        out["edges.set"] = [tuple(ints(e)) for e in r] if ok else "raised"
+        ok, r = ctx.call("later:edge-equality", lambda: [bool(m.edges[i] == tuple(ints(m.edges[i]))) for i in range(len(m.edges))])
+        out["edges.eq"] = r if ok else "raised"
     if case["manifold"] and nf["dim"] == 2:
         C = m.connectivity
         for v in range(len(case["V"])):
@@ -403,6 +415,7 @@ def fn(case, ctx):
     invalid = [i for i, (a, b) in enumerate(case["E"]) if not (a != b and 0 <= a < N and 0 <= b < N)]
     inv_attr = any(str(i) in a["values"] for a in case["attrs"] for i in invalid)
     if invalid: ctx.label("invalid-edges")
+    if case.get("prefill_corners"): ctx.label("prefilled-face-corners")
     if inv_attr: ctx.label("invalid-edge-with-attribute")
     shared = False
     if case["C"]:
